@@ -247,7 +247,7 @@ int main(int argc, char **argv)
 """
 
 
-def make_stream_spec(prog, acts, eofs, rng, backend, lineno_on, extra_options=None, scopes=False):
+def make_stream_spec(prog, acts, eofs, rng, backend, lineno_on, extra_options=None, scopes=False, prologue=""):
     """acts: {rule number: [ops]}, eofs: {sc number: [ops]}"""
     defs = {}
     bol_obs = any(r.get('bol') for r in prog['rules'])
@@ -274,7 +274,7 @@ def make_stream_spec(prog, acts, eofs, rng, backend, lineno_on, extra_options=No
             nrules + 1, 1 if lineno_on else 0, 1 if bol_obs else 0)
     else:
         top += "#define yyecho() ev_tok(%d, %s, %s, %s, %s, %s)\n" % (nrules + 1, a['text'], a['leng'], a['start'], ln, bol)
-    out.append("%{\n" + top + "%}")
+    out.append("%{\n" + top + prologue + "%}")
     pats = [scanner.print_rule_pattern(r, rng, defs, posix=prog.get('posix', False)) for r in prog['rules']]
     for name in defs:
         out.append("%s %s" % (name, defs[name]))
@@ -329,7 +329,7 @@ def eval_stream_case(flex, workdir, case):
     backend = case['backend']
     bol_obs = any(r.get('bol') for r in prog['rules'])
     text = make_stream_spec(prog, case['acts'], case['eofs'], Rng(case['seed']).fork("print"), backend, case['lineno'],
-                            extra_options=case.get('extra_options'))
+                            extra_options=case.get('extra_options'), prologue=case.get('prologue', ""))
     res['text'] = text
     with open(os.path.join(workdir, "s.l"), "w") as f:
         f.write(text)
